@@ -145,6 +145,9 @@ type Layout struct {
 	Multiline bool // one command per line, indented
 	Style     PrintStyle
 	CRLF      bool // the line breaks that lay the file out are CR LF (text and literal content is left as it is)
+	// Attrs spells commands with the optional attributes and alternative forms the parser accepts and ignores or treats
+	// alike: kind="..." on let / param / template, hidden="..." on msg, {call name="..."}, a comment between params.
+	Attrs bool
 }
 
 type srcw struct {
@@ -154,7 +157,19 @@ type srcw struct {
 	// Lines records the 1-based line of each node laid out (multi-line layouts).
 	Lines map[Node]int
 	line  int
+	nvar  int
 }
+
+// variant cycles through n spellings when the layout asks for them, else returns 0.
+func (w *srcw) variant(n int) int {
+	if !w.lay.Attrs {
+		return 0
+	}
+	w.nvar++
+	return w.nvar % n
+}
+
+var kinds = []string{"", ` kind="html"`, ` kind="text"`, "", ` kind="attributes"`, ` kind="js"`, ` kind="uri"`}
 
 func (w *srcw) nl() {
 	if w.lay.Multiline {
@@ -282,16 +297,24 @@ func (w *srcw) node(n Node) {
 	case *LetVal:
 		w.s("{let $" + n.Name + ": " + w.e(n.E) + " /}")
 	case *LetContent:
-		w.s("{let $" + n.Name + "}")
+		w.s("{let $" + n.Name + kinds[w.variant(len(kinds))] + "}")
 		w.block(n.Body)
 		w.nl()
 		w.s("{/let}")
 	case *CallT:
-		w.s("{call " + n.NameSrc)
+		dataAttr := ""
 		if n.DataAll {
-			w.s(` data="all"`)
+			dataAttr = ` data="all"`
 		} else if n.Data != nil {
-			w.s(" data=" + quoteAttr(w.e(n.Data)))
+			dataAttr = " data=" + quoteAttr(w.e(n.Data))
+		}
+		switch w.variant(4) {
+		case 1:
+			w.s("{call name=" + quoteAttr(n.NameSrc) + dataAttr)
+		case 3:
+			w.s("{call" + dataAttr + " name=" + quoteAttr(n.NameSrc))
+		default:
+			w.s("{call " + n.NameSrc + dataAttr)
 		}
 		if len(n.Params) == 0 && n.SelfClose {
 			w.s(" /}")
@@ -305,14 +328,17 @@ func (w *srcw) node(n Node) {
 			if w.Lines != nil {
 				w.Lines[p] = w.line
 			}
+			if w.variant(5) == 2 {
+				w.s(" // a comment between params\n")
+			}
 			switch {
 			case p.IsContent && p.AttrSyntax:
-				w.s("{param key=" + quoteAttr(p.Name) + "}")
+				w.s("{param key=" + quoteAttr(p.Name) + kinds[w.variant(len(kinds))] + "}")
 				w.block(p.Content)
 				w.nl()
 				w.s("{/param}")
 			case p.IsContent:
-				w.s("{param " + p.Name + "}")
+				w.s("{param " + p.Name + kinds[w.variant(len(kinds))] + "}")
 				w.block(p.Content)
 				w.nl()
 				w.s("{/param}")
@@ -344,7 +370,7 @@ func (w *srcw) node(n Node) {
 		if n.Meaning != "" {
 			w.s(" meaning=" + quoteAttr(n.Meaning))
 		}
-		w.s(" desc=" + quoteAttr(n.Desc) + "}")
+		w.s(" desc=" + quoteAttr(n.Desc) + []string{"", ` hidden="false"`, "", ` hidden="true"`}[w.variant(4)] + "}")
 		// message bodies stay on one line: their text is significant
 		for _, c := range n.Body {
 			switch c := c.(type) {
@@ -435,7 +461,10 @@ func FileSrc(f *File, lay Layout, lines map[Node]int) string {
 		}
 		if t.Private {
 			w.s(` private="true"`)
+		} else if w.variant(3) == 1 {
+			w.s(` private="false"`)
 		}
+		w.s(kinds[w.variant(len(kinds))])
 		w.s("}\n")
 		if t.HeaderStyle {
 			for _, p := range t.Params {
